@@ -127,11 +127,53 @@ Verdict run_case(Choices& c, CaseLog& log)
         bool linear = false;
         int remaining = 1;  // consecutive steps of the track to inject on
         bool negative_remainder = false;
+        int all_budget = 0;  // injections left in the any-neutral-track mode
         bool constructive = false;  // search the ulp offset that leaves a
                                     // negative remainder after the step
     };
     auto tie = std::make_shared<Tie>();
     auto tie_hook = [tie](CoreParams const& cp, CoreState<MemSpace::host>& st) {
+        // second mode: on ANY neutral track, whenever a floating-point
+        // neighbour of the exact tie exists for which the limit still reaches
+        // the boundary but distance*xs exceeds the mfp (the step is then
+        // boundary-limited and leaves a tiny negative remainder), inject it
+        for (auto i : range(TrackSlotId{st.size()}))
+        {
+            if (!tie->enabled || tie->all_budget <= 0)
+                break;
+            CoreTrackView t(cp.host_ref(), st.ref(), i);
+            auto sim = t.make_sim_view();
+            if (sim.status() != TrackStatus::alive)
+                continue;
+            auto particle = t.make_particle_view();
+            if (!(particle.charge() == zero_quantity()))
+                continue;
+            auto pstep = t.make_physics_step_view();
+            double xs = pstep.macro_xs();
+            auto geo = t.make_geo_view();
+            if (!(xs > 0) || geo.is_outside())
+                continue;
+            Propagation pr = geo.find_next_step();
+            if (!pr.boundary || !(pr.distance > 0) || !std::isfinite(pr.distance))
+                continue;
+            for (int k : {-1, -2, -3, -4})
+            {
+                double m = Choices::step_ulps(pr.distance * xs, k);
+                if (m > 0 && m / xs >= pr.distance && m - pr.distance * xs < 0)
+                {
+                    auto phys = t.make_physics_view();
+                    phys.interaction_mfp(m);
+                    auto mat = t.make_material_view();
+                    sim.reset_step_limit(
+                        calc_physics_step_limit(mat, particle, phys, pstep));
+                    --tie->all_budget;
+                    tie->done = true;
+                    if (sim.step_length() >= pr.distance)
+                        tie->negative_remainder = true;
+                    break;
+                }
+            }
+        }
         if (!tie->enabled || tie->remaining <= 0)
             return;
         for (auto i : range(TrackSlotId{st.size()}))
@@ -234,11 +276,13 @@ Verdict run_case(Choices& c, CaseLog& log)
     snaps->call = &p.w->rec->call;
     if (c.boolean(0.25))
     {
-        tie->enabled = true;
+        tie->enabled = !std::getenv("VERIF_NOTIE");  // (debug aid)
         tie->at_step = int(c.int_in(0, 3));
         tie->ulps = int(c.int_in(0, 4)) - 2;
         tie->remaining = int(c.int_in(1, 3));
         tie->constructive = c.boolean(0.6);
+        tie->all_budget = c.boolean(0.5) ? int(c.int_in(2, 16)) : 0;
+        log.mix(tie->all_budget);
         log.mix(tie->ulps);
         log.mix(tie->remaining * 2 + int(tie->constructive));
         tie->linear = !has_field(p.spec.along) && !has_msc(p.spec.along);
@@ -289,6 +333,10 @@ Verdict run_case(Choices& c, CaseLog& log)
                     continue;
                 geo::V3 x{{sp->post.pos[0], sp->post.pos[1], sp->post.pos[2]}};
                 geo::LD dl = geo::delta_at(fix.model, x);
+                // a genuine (positive-length) step; a zero or negative
+                // step is never a consequence of the tie
+                if (!(sp->length > 0))
+                    continue;
                 if (geo::locate(fix.model, x, 4 * dl).ambiguous)
                     return true;
             }
@@ -423,6 +471,20 @@ Verdict run_case(Choices& c, CaseLog& log)
                         m.precision(15);
                         m << id.str() << ": straight-line displacement " << d
                           << " exceeds the step length " << s.length;
+                        // known finding F13: rotate() drops the sign of y for
+                        // a direction within 0.005 rad of +-z, so the MSC
+                        // lateral displacement is not perpendicular to the
+                        // direction of travel
+                        double st = std::sqrt(s.pre.dir[0] * s.pre.dir[0]
+                                              + s.pre.dir[1] * s.pre.dir[1]);
+                        if (has_msc(p.spec.along) && st > 0 && st < 0.005
+                            && s.pre.dir[1] < 0)
+                            return log.fail(m.str()
+                                                + " [MSC displacement rotated "
+                                                  "about a direction within "
+                                                  "0.005 rad of the z axis with "
+                                                  "y < 0]",
+                                            "F13-rotate-near-z-sinphi-sign");
                         return fail(m.str());
                     }
                 }
